@@ -76,7 +76,8 @@ try:
     print('CHECK rc=%d' % p.returncode); print('\n'.join(l[:260] for l in lines[:6]))
 finally:
     shutil.rmtree(d, ignore_errors=True)
-out_dir = os.path.join('/verif/seeded', '%s-%s' % (prop, mid))
+rnd = 'r2' if '/wt2-' in wt else ('r3' if '/wt3-' in wt else '')
+out_dir = os.path.join('/verif/seeded', '%s-%s%s' % (prop, rnd, mid))
 if os.path.isdir(out_dir):
     old = json.load(open(os.path.join(out_dir, 'meta.json'))) if os.path.exists(os.path.join(out_dir, 'meta.json')) else {}
     res['earlier_checks'] = old.get('confirmed', {}).get('earlier_checks', []) + ([old['confirmed']['check']] if 'confirmed' in old and 'check' in old['confirmed'] else [])
